@@ -1,5 +1,5 @@
 /-
-C03 — trigger predicates of the KNOWN escapes (findings F03b, F03e, F03g, F03h, F03i, F03j, F03L of
+C03 — trigger predicates of the KNOWN escapes (findings F03b, F03e, F03g, F03h, F03i, F03j, F03k of
 findings/C03.json).  Core Lean only; evaluated by the driver (`X` request) so that the harness tags a
 disagreement with a finding id only when this predicate holds for the failing call.
 
@@ -60,7 +60,6 @@ def rows : List Row := [
   ⟨"F03g", "InvalidOperation", "datatypes/untyped.py:_operator", cmpOps ++ ["index-of", "distinct-values"], 0⟩,
   ⟨"F03g", "IndexError", "xpath_tokens/functions.py:validated_result", ["for-each", "filter", "fold-left", "fold-right", "for-each-pair", "sort", "apply"], 0⟩,
   ⟨"F03g", "AssertionError", "xpath1/xpath1_parser.py:parse_occurrence", ["instance", "treat", "cast", "castable", "as"], 0⟩,
-  ⟨"F03g", "ParseError", "xpath30/_xpath30_functions.py:evaluate__analyze_string", ["analyze-string"], 0⟩,   -- repaired on branch fix-c12
   ⟨"F03g", "KeyError", "xpath_tokens/base.py:cast_to_primitive_type", ["avg", "sum", "min", "max"], 0⟩,
   ⟨"F03g", "TypeError", "datatypes/uri.py:__init__", ["uri-collection"], 0⟩,
   ⟨"F03g", "TypeError", "serialization.py:serialize_to_xml", ["serialize"], 0⟩,
@@ -78,7 +77,6 @@ def rows : List Row := [
   ⟨"F03g", "IndexError", "xpath30/xpath30_helpers.py:format_digits", ["format-integer"], 0⟩,
   ⟨"F03g", "TypeError", "xpath30/xpath30_helpers.py:roman_num", ["format-integer"], 0⟩,
   ⟨"F03g", "ValueError", "namespaces.py:get_expanded_name", ["instance", "castable", "cast", "treat"], 0⟩,
-  ⟨"F03g", "TypeError", "xpath2/_xpath2_functions.py:select__subsequence", ["subsequence"], 0⟩,   -- repaired on branch fix-c08
   -- F03k: a function item, map or array is passed where an atomic value or a node is expected; the
   -- site is the `evaluate__…` method of whichever function received it
   ⟨"F03k", "TypeError", ":evaluate__*", fnItemSyms, 0⟩,
@@ -111,11 +109,6 @@ def rows : List Row := [
   ⟨"F03h", "MemoryError", "xpath30/xpath30_helpers.py:roman_num", ["format-integer"], 0⟩,
   ⟨"F03h", "OverflowError", "datatypes/datetime.py:_compare_durations", durTypes, 0⟩,
   ⟨"F03h", "OverflowError", "datatypes/datetime.py:fromduration", durTypes, 0⟩,
-  ⟨"F03h", "ValueError", "datatypes/datetime.py:__init__", ["date", "dateTime", "gYear", "gYearMonth", "dateTimeStamp"], 0⟩,   -- repaired on branch fix-c11
-  -- F03L (= F19 of property C19, repaired on branch fix-c19): unsupported fallback locale -> bare
-  -- locale.Error with the process-wide collation lock left held; the next collation call blocks
-  ⟨"F03L", "Error", "collations.py:__enter__", [], 0⟩,
-  ⟨"F03L", "Hang", "collations.py:__enter__", [], 0⟩,
   -- F03i: a URI argument is handed to urllib without validation
   ⟨"F03i", "InvalidURL", "xpath30/_xpath30_functions.py:evaluate__unparsed_text", ["unparsed-text", "unparsed-text-lines"], 0⟩,
   ⟨"F03i", "InvalidURL", "xpath30/_xpath30_functions.py:evaluate__unparsed_text_available", ["unparsed-text-available"], 0⟩,
